@@ -1,7 +1,14 @@
 (* YangText.v — model of the string side of the YANG schema printer and parser:
      printer  src/printer_yang.c : ypr_encode(), ypr_text_squote_line(), ypr_text()
      lexer    src/parser_yang.c  : buf_store_char(), skip_comment(), read_qstring(), get_argument() entered at a quote
-   The model is what the code does (see the remarks marked DEFECT); nothing is proved in this file. *)
+   The model is what the code does (see the remarks marked DEFECT); nothing is proved in this file.
+   State of the code modelled: ypr_text() after commit f628c31 - in a double-quoted text a newline whose
+   preceding character is a blank, or (LYS_YPR_TEXT_SINGLELINE) whose following character is a blank, is
+   printed as backslash n on the same output line instead of as a line break followed by indentation
+   ([text_lines], arguments dq and sl). Before that commit every newline was a real line break and the
+   blanks next to it were lost on reading (RFC 7950 6.1.3 stripping in read_qstring()).
+   Still as coded: a carriage return is printed raw (the lexer drops or rejects it), and the continuation
+   lines of a single-quoted text are indented (the blanks become content); see Properties_C10_ytext.v. *)
 From LY Require Import Base Utf8.
 Local Open Scope N_scope.
 
